@@ -6,6 +6,8 @@ def run(ctx):
     progress.rule_blocking(ctx)
     progress.rule_driver_loops(ctx)
     progress.rule_ideal_early_exit(ctx)
+    progress.rule_model_tracks_extension(ctx)
+    progress.rule_single_computation(ctx)
     ctx.assume("a clause over the complement literals plus the selector excludes every subset of the current set (range) while the selector is assumed false")
     ctx.assume("rustc's MIR; sa/tags.py literal roles")
     return (
